@@ -13,8 +13,14 @@ CHECKS = {
             'finite probe alphabet instead of all reals; models larger than the bounds and operators outside the library are not covered; reference semantics (pyx/refsem) is trusted and self-tested', EXPL, 'DESIGN.md 3 C01'),
     'C03': ('exploration', 'full lattice model x solver(euler, heun) x dt x dts/dt x T/dts x cutoff on binary-fraction grids plus slices for scipy methods, torch and jax solvers: the DataFrame of run() is compared row by row and index by index with the harness own Euler/Heun loop over the vector field of an identically built template (exact), with closed forms for adaptive solvers, and two-level refinement for convergence',
             'five small models; T a multiple of the sampling step; stiff systems not covered', EXPL, 'DESIGN.md 3 C03'),
+    'C04': ('exploration', 'circuits of 1..N structurally identical nodes per type with pairwise distinct per-node parameters; every weight pattern over a 3-value alphabet for 2x2 blocks and all patterns with <=3 non-zeros for larger/non-square blocks, two node types, delays, edge templates, matrix_sparseness thresholds: compiled with vectorize on and off from fresh state; derivative per frontend variable at a base point plus all single deviations and euler trajectories must agree with each other and with the reference semantics',
+            'N <= 4 nodes per type; finite probe alphabet', EXPL, 'DESIGN.md 3 C04'),
     'C05': ('exploration', 'every operator-labelled expression skeleton with <=3 (thorough 4) operator nodes over + - * / ^, unary minus and the documented functions, leaves from colliding identifier sets, in 4 surface variants and 3 equation forms, evaluated on both paths of the real code (parser + eval_node; generated source) at 3 valuations and compared with python-ast/NumPy evaluation',
             'finite valuations instead of all reals; expressions larger than the bound; index helpers on arrays are covered by C01/C04/C09 models only; valuations outside the real domain of an expression are rejected', EXPL, 'DESIGN.md 3 C05'),
+    'C08': ('exploration', 'pure integrators in 1-4 nodes at hierarchy depth 0-2 x every listed target selection (single, wildcard, hierarchical, two inputs on one variable, edge onto the same variable) x array shapes (N,), (N,1), (N,n) with strictly distinct samples x solver x backend x vectorize: trajectories of run() and values of the compiled function at on-grid, mid-grid and out-of-range t vs a dict-state reference (sample k during step k; np.interp on linspace(0,T,N) and its exact integral for adaptive solvers)',
+            'input values from one deterministic table; N <= 13 samples; quick tier covers torch/jax/fortran on a slice only', EXPL, 'DESIGN.md 3 C08'),
+    'C09': ('exploration', 'ramp sources x 1-3 targets x per-edge delay in {none, 2dt, 3dt, 2.4dt, 2.6dt, 5dt} over shared-source, parallel, shared-target and feedback topologies x vectorize: every euler trajectory of run() compared row by row with the reference recurrence with explicit history (src[k-D], zero before start, undelayed edges read src[k])',
+            'delays below two steps are outside the property; Connectivity (matrix) delays are covered by C16; one dt', EXPL, 'DESIGN.md 3 C09'),
     'C19': ('model_checking', 'explicit-state search of all update sequences up to depth 6/7 on the real DDEHistory class, every query of a lattice checked in every state against a list-based reference',
             'values outside the finite alphabets (3 deltas, 3 y vectors, 3 shapes, 3 dtypes) and sequences longer than the bound are not covered, except one 3000-step run through the real capacity', MC, 'DESIGN.md 3 C19'),
 }
